@@ -383,10 +383,15 @@ def _apply_fn(src, w, op, fn, modname):
         w.insert(toks[bi].start, '\n' + spec.rstrip() + '\n', f'{label}#loop{kidx}', 'W4')
     for (kidx, c) in sorted(op.get('closures', {}).items()):
         cls = src.closures(fn)
+        # the ordinal is a hint: when another closure was added or removed in front, the contract follows the (unique)
+        # closure with the expected parameter list
+        same = [k for k, (bo_, bc_, _b0, _b1) in enumerate(cls) if norm(text[toks[bo_].start:toks[bc_].end]) == norm(c['expect_params'])]
+        if (kidx >= len(cls) or kidx not in same) and len(same) == 1:
+            kidx = same[0]
         if kidx >= len(cls):
             if c.get('optional'):
-                # the closure was refactored away (e.g. `.map(|v| ..)` -> `match`): its contract is a proof hint only
-                w.lost_hints = getattr(w, 'lost_hints', []) + [f'{label}: closure #{kidx}']
+                # the closure was refactored away (e.g. `.map(|v| ..)` -> `match` / `?`): there is nothing left that would
+                # need its contract, so nothing is lost
                 continue
             raise AnchorLost(f'{src.path}: fn `{op["path"]}` has no closure #{kidx}')
         bo, bc, b0, b1 = cls[kidx]
